@@ -34,12 +34,34 @@ fn permute(items: &mut Vec<String>, mut k: usize) {
     }
 }
 
+thread_local! {
+    static MEMO: std::cell::RefCell<std::collections::HashMap<Vec<String>, usize>> = std::cell::RefCell::new(std::collections::HashMap::new());
+}
+
 fn install_hook() {
     svgdx::verif::set_order_hook(Some(Arc::new(|_site, items: &mut Vec<String>| {
         PLAN.with(|p| {
             let mut p = p.borrow_mut();
-            let call = p.1.len();
             items.sort(); // canonical: the explorer, not the hash seed, owns the order
+            // a <reuse> element is evaluated several times (sizing, retries): one choice per distinct attribute list,
+            // applied at every evaluation, keeps the space the product over lists rather than over evaluations
+            let call = if _site == "reuse_attrs" {
+                let memo = MEMO.with(|m| m.borrow().get(&*items).copied());
+                match memo {
+                    Some(c) => {
+                        let k = p.0.get(c).copied().unwrap_or(0);
+                        permute(items, k);
+                        return;
+                    }
+                    None => {
+                        let c = p.1.len();
+                        MEMO.with(|m| m.borrow_mut().insert(items.clone(), c));
+                        c
+                    }
+                }
+            } else {
+                p.1.len()
+            };
             p.1.push(items.len());
             let k = p.0.get(call).copied().unwrap_or(0);
             permute(items, k);
@@ -51,6 +73,7 @@ fn install_hook() {
 fn run_with_plan(doc: &str, cfg: &Cfg, plan: &[usize]) -> (Outcome, Vec<usize>) {
     install_hook();
     PLAN.with(|p| *p.borrow_mut() = (plan.to_vec(), Vec::new()));
+    MEMO.with(|m| m.borrow_mut().clear());
     let out = run_str(doc, cfg);
     let lens = PLAN.with(|p| p.borrow().1.clone());
     svgdx::verif::set_order_hook(None);
@@ -341,6 +364,34 @@ pub fn run(tier: Tier) -> i32 {
     rep.sample(json!({"leg": "orders", "doc": docs[docs.len() / 2], "note": "all permutations of each hooked class list explored"}));
     rep.sample(json!({"leg": "orders", "doc": docs[docs.len() - 1]}));
     rep.absorb("orders", st);
+
+    // ---- leg 1b (seventh round, seed C06d): the attributes of a <reuse> element are taken from a hash map; every order
+    // in which the map can hand them out must give the same bytes - also when two of them describe the same thing
+    let rdocs: Vec<String> = vec![
+        r##"<svg><specs><rect id="t" wh="10 6" rxy="1 2"/></specs><reuse href="#t" rxy="2 3" rx="4"/></svg>"##.into(),
+        r##"<svg><specs><rect id="t" wh="10 6" rx="1" ry="2"/></specs><reuse href="#t" rxy="5 6" rx="2" ry="5"/></svg>"##.into(),
+        r##"<svg><specs><rect id="t" wh="$w 6"/></specs><reuse href="#t" w="3" wh="7 8" width="9"/></svg>"##.into(),
+        r##"<svg><specs><rect id="t" xy="1 2" wh="4"/></specs><reuse href="#t" xy="5 6" x="7" dx="1" dxy="2"/></svg>"##.into(),
+        r##"<svg><specs><circle id="t" cxy="1 2" r="4"/></specs><reuse href="#t" cxy="5 6" cx="7" r="2" rxy="3"/></svg>"##.into(),
+        r##"<svg><specs><g id="t"><rect wh="$a $b"/></g></specs><reuse href="#t" a="3" b="$a" transform="scale(2)" style="fill:red"/></svg>"##.into(),
+        r##"<svg><specs><rect id="t" wh="4" class="$c" text="$l"/></specs><reuse href="#t" c="d-red" l="x" text="y" text-loc="t"/></svg>"##.into(),
+    ];
+    let rstates = std::sync::atomic::AtomicU64::new(0);
+    let st = run_space(rdocs.len(), |i| {
+        let (execs, perms, _outs, viol) = explore_orders(&rdocs[i], &cfg);
+        rstates.fetch_add(perms, std::sync::atomic::Ordering::Relaxed);
+        let viol = viol.map(|mut v| {
+            if v.signature.starts_with("C06/orders/") && v.signature != "C06/orders/hook-sequence" {
+                v.signature = format!("C06/orders-reuse-attributes/doc{i}");
+            }
+            v
+        });
+        CaseResult { case_hash: hash64(&rdocs[i]), nontrivial: perms >= 2, outcome_hash: hash64(&(i, viol.is_some())), executions: execs, violation: viol }
+    });
+    rep.set("states_reuse_attribute_orders", json!(rstates.load(std::sync::atomic::Ordering::Relaxed)));
+    rep.sample(json!({"leg": "orders-reuse-attributes", "doc": rdocs[0], "note": "every permutation of the reuse element's attribute list explored"}));
+    rep.absorb("orders-reuse-attributes", st);
+    rep.set("also_round7", json!("Round 7 (seed C06d): a second iteration_order seam hands the checker the attribute list of every <reuse> element (a hash map in the subject); 7 documents whose reuse element carries attributes describing the same thing twice (rxy + rx, wh + width, xy + x + dx + dxy, cxy + cx + r + rxy, bindings used by other bindings) are run under every permutation of that list (one choice per distinct list, applied at each of the element's evaluations)."));
 
     // ---- leg 2: repetition in-process without the seam (class docs + examples + random + errors)
     let reps = tier.pick(6, 12);
